@@ -30,6 +30,8 @@ type Sorts struct {
 	strOrder []string
 	axioms   []string
 	funcs    map[string]bool
+	constArrs map[string]string
+	lateDecls []string
 }
 
 func NewSorts() *Sorts {
@@ -215,6 +217,9 @@ func (s *Sorts) zeroOfSort(so string, t types.Type) string {
 	case "Unit":
 		return "unit"
 	}
+	if strings.HasPrefix(so, "(Array ") {
+		return s.ConstArray(so, s.zeroOfSort(arrayRange(so), nil))
+	}
 	if t != nil {
 		switch u := t.Underlying().(type) {
 		case *types.Struct:
@@ -238,12 +243,32 @@ func (s *Sorts) zeroOfSort(so string, t types.Type) string {
 				}
 				return fmt.Sprintf("(mk_%s %s)", so, strings.Join(parts, " "))
 			}
-			return fmt.Sprintf("((as const %s) %s)", so, z.S)
+			return s.ConstArray(so, z.S)
 		}
 	}
 	// unknown: uninterpreted constant
 	n := "zero_" + sanitize(so)
 	s.declFun(n, "() "+so)
+	return n
+}
+
+// ConstArray returns a constant array term. cvc5 only accepts values as the element of (as const ...), so for
+// elements that mention uninterpreted constants (string literals) a named array with a quantified definition is used.
+func (s *Sorts) ConstArray(arraySort, elem string) string {
+	if !strings.Contains(elem, "str!") && !strings.Contains(elem, "zero_") && !strings.Contains(elem, "float_") && !strings.Contains(elem, "carr!") {
+		return fmt.Sprintf("((as const %s) %s)", arraySort, elem)
+	}
+	key := arraySort + "|" + elem
+	if n, ok := s.constArrs[key]; ok {
+		return n
+	}
+	if s.constArrs == nil {
+		s.constArrs = map[string]string{}
+	}
+	n := fmt.Sprintf("carr!%d", len(s.constArrs))
+	s.constArrs[key] = n
+	s.lateDecls = append(s.lateDecls, fmt.Sprintf("(declare-const %s %s)", n, arraySort))
+	s.lateDecls = append(s.lateDecls, fmt.Sprintf("(assert (forall ((i %s)) (! (= (select %s i) %s) :pattern ((select %s i)))))", arrayDomain(arraySort), n, elem, n))
 	return n
 }
 
@@ -315,6 +340,19 @@ func (s *Sorts) Prelude() []string {
 	if len(lits) > 1 {
 		out = append(out, fmt.Sprintf("(assert (distinct %s))", strings.Join(lits, " ")))
 	}
+	// the spec predicate allASCII (prelude/strings.spec) is decided for literals by the generator
+	if s.funcs["sf_allASCII"] {
+		for _, v := range s.strOrder {
+			ascii := true
+			for i := 0; i < len(v); i++ {
+				if v[i] >= 0x80 {
+					ascii = false
+				}
+			}
+			out = append(out, fmt.Sprintf("(assert (= (sf_allASCII %s) %v))", s.strLits[v], ascii))
+		}
+	}
+	out = append(out, s.lateDecls...)
 	return out
 }
 
